@@ -648,6 +648,14 @@ fn liq_driver(out: &str, seed: u64, n: u64) {
             extra.push(json!({"op":"deposit","acct":"A2","bank":"D1","amount":7,"may_fail":true}));
             extra.push(json!({"op":"deposit","acct":"A2","bank":"C1","amount":camt.saturating_mul(40),"may_fail":true}));
         }
+        // (a fifth of the borrowers also lend in an isolated-tier bank)
+        if rng.gen_bool(0.2) {
+            extra.push(json!({"op":"add_mint","mint":"M.I1","decimals":6,"kind":"spl"}));
+            extra.push(json!({"op":"add_bank","group":"G1","bank":"I1","mint":"M.I1","cfg":{"aw_init":"0","aw_maint":"0","risk_tier":1}}));
+            extra.push(json!({"op":"set_fixed_price","bank":"I1","price":"1"}));
+            extra.push(json!({"op":"fund","user":"U1","mint":"M.I1","amount":"4000000000000"}));
+            extra.push(json!({"op":"deposit","acct":"A1","bank":"I1","amount":*pick(&mut rng, &[50_000u64, 3_000_000, 1_000_000_000])}));
+        }
         let optin = rng.gen_bool(0.3);
         if optin {
             extra.push(json!({"op":"configure_bank","bank":"D1","cfg":{"permissionless_bad_debt":true}}));
